@@ -36,3 +36,23 @@ func init() {
 		Rule: "states = choice-point prefixes explored (one per execution); non-trivial = default execution that reaches at least one map range with >= 2 keys; transitions additionally count every alternative taken"}
 	props["C07"] = p
 }
+
+func init() {
+	std := func(rule string) propSpec {
+		return propSpec{Mode: "mapctl", Validate: true, Rule: rule, Assume: stdAssume, BudgetS: 20, QuickDeadS: 420, ThorDeadS: 3000}
+	}
+	props["C08"] = std("a case = (input, configuration) compared under every renaming of the family; non-trivial = input with >= 2 nodes; transitions count the renamed executions")
+	props["C09"] = std("a case = one interleaved union of 2-3 connected graphs x configuration, compared with the solo layout of each part; every case is non-trivial (>= 2 components)")
+	props["C17"] = std("a case = (input, configuration) compared under every scale factor; non-trivial = input with >= 2 edges; transitions count the scaled executions")
+}
+
+func init() {
+	props["C18"] = propSpec{Mode: "mapctl", Validate: true, Assume: stdAssume, BudgetS: 20, QuickDeadS: 420, ThorDeadS: 3000,
+		Rule: "a case = one history of Layout calls; non-trivial = history with >= 2 calls; states = histories executed, transitions = histories + (state, operation) pairs of the closure search"}
+}
+
+func init() {
+	props["C15"] = propSpec{Mode: "sched", Validate: false, Race: true, BudgetS: 60, QuickDeadS: 420, ThorDeadS: 3000,
+		Assume: append([]string{"scheduling points are the statements that mention a package-level variable of the module (found by the type-checked instrumenter); interleavings inside one statement and sharing that does not pass through a package-level variable are only covered by the separate free-running -race pass, which is sampling"}, stdAssume...),
+		Rule:   "a case = one scenario of k concurrent Layout calls; states = distinct scheduler state keys (per-thread access counts + per-thread hash of what it read + global snapshot), transitions = (state, granted thread) pairs; every scenario is non-trivial (>= 2 threads over shared package-level variables)"}
+}
